@@ -47,6 +47,7 @@ func genC07(p *pkgInfo, l *leanFile) {
 	}
 	l.pf("/-- arguments of the Exists conjunction of storageHasCertResources, in evaluation order -/\ndef existsOrder : List String := %s\n\n", leanStrList(ex))
 	p.emitSkeleton(l, "storeTx")
+	l.pf("/-- the name of storeTx's storage parameter -/\ndef storeTxParam : String := %s\n\n", leanStr(paramOfType(p.funcs["storeTx"], "Storage")))
 	p.emitSkeleton(l, "Config.moveCompromisedPrivateKey")
 	l.pf("\nend CM.Gen.C07\n")
 }
